@@ -277,6 +277,7 @@ def r07d(chk, rid='R07.d'):
 
 def r07e(chk, rid='R07.e'):
     chk.rule(rid, 'the stream reader reports what was consumed, decided by evaluation: StreamReader.decode is evaluated on its syntax tree with a model of the underlying reader that leaves the last byte of the chunk undecoded (an incomplete multi-byte character): while the encoding or the @charset rule is undecided nothing is consumed and no reader is kept; on the deciding call the consumed count is the one the underlying reader reports - not the length of the chunk - and the reader is kept; afterwards the call is delegated')
+    chk.assume("R07.e: the underlying stream reader is a model that leaves the last byte of a chunk undecoded; detectencoding_str and _fixencoding are replaced by the scenario's answers (R07.a/b decide them)")
     from sa.absint import Evaluator, Obj, Raised, Record
 
     m = chk.repo.mod(CODEC)
